@@ -366,7 +366,7 @@ def run(ctx):
     stats = {k: 0 for k in ("ops", "new_open_fresh", "new_open_existing", "new_create_fresh", "new_create_existing", "acquire", "release", "own", "free_owner", "free_plain", "block_probes",
                             "kexcl_entries", "kexcl_max_seen", "churn_rounds", "churn_open_failures", "crash_points", "crash_not_fired", "recoveries", "strace_points", "histories")}
     stats["crash_script_calls"] = {}
-    nh = 150 if q else 2500
+    nh = 150 if q else 8000
     rngs = [random.Random(ctx.seed * 100003 + i) for i in range(nh)]
 
     def hist(i):
